@@ -171,6 +171,9 @@ func c18RandomCase(rnd *rand.Rand, maxK int, fmts []string) c18Case {
 	}
 	c.Count = len(ps)
 
+	// the spelling of the declarations
+	pr.Xml = c18Xml{Rev: rnd.Intn(2) == 0, Prefix: pick("r", "r", "rel", "ns1"), Single: rnd.Intn(2) == 0, Foreign: rnd.Intn(2) == 0,
+		OC: rnd.Intn(2) == 0, Gaps: rnd.Intn(2) == 0, Decl: pick("std", "std", "none", "bom")}
 	// the declaration chain
 	main := c18Root{Media: "opf", Auth: true, Dir: append([]string{}, c.Base...), File: "content", Spine: []int{}, Hrefs: []c18Href{}}
 	c.Roots = []c18Root{main}
